@@ -222,9 +222,13 @@ def run(R, tier):
     # coefficients that are functions composed with their inverses or with branch cuts (asin(sin t), acos(cos t), log(exp(I t)),
     # sqrt(t**2), Abs): the automatic simplification may only rewrite them to something equal for EVERY value of the symbols
     t = sympy.Symbol('t')
+    u_ = sympy.Symbol('u')
     fexprs = [sympy.asin(sympy.sin(t)), sympy.acos(sympy.cos(t)), sympy.atan(sympy.tan(t)), sympy.sqrt(t ** 2), sympy.Abs(t) + t,
-              sympy.log(sympy.exp(t)) * 2, sympy.sin(t) ** 2 + sympy.cos(t) ** 2 - 1, (t ** 2) ** sympy.Rational(1, 2) - t]
-    for it in range(10 if tier == 'quick' else 120):
+              sympy.log(sympy.exp(t)) * 2, sympy.sin(t) ** 2 + sympy.cos(t) ** 2 - 1, (t ** 2) ** sympy.Rational(1, 2) - t,
+              # roots / logarithms / powers of PRODUCTS of symbols: sqrt(t u) is not sqrt(t) sqrt(u) when both are negative
+              sympy.sqrt(t * u_), sympy.sqrt(t * u_) - sympy.sqrt(t) * sympy.sqrt(u_), sympy.log(t * u_), (t * u_) ** sympy.Rational(1, 3), sympy.sqrt(t * u_) * u_,
+              sympy.sqrt(t * u_), (t * u_ ** 2) ** sympy.Rational(1, 2)]
+    for it in range(16 if tier == 'quick' else 200):
         d = rng.choice((2, 3))
         alg = algs.make_impl({'sig': [rng.choice((1, -1)) for _ in range(d)]})
         canon = list(alg.canon2bin.values())
@@ -233,15 +237,16 @@ def run(R, tier):
         a = MultiVector.fromkeysvalues(alg, tuple(ks), [f1, sympy.Integer(rng.randint(1, 4))])
         b = MultiVector.fromkeysvalues(alg, tuple(ks), [sympy.Integer(rng.randint(1, 4)), f2])
         tv = rng.choice((3, -2, sympy.Rational(7, 2), -5))
+        uv = rng.choice((-8, 2, -3, sympy.Rational(-1, 2)))
         op = rng.choice(['add', 'sub', 'neg', 'reverse', 'involute', 'conjugate', 'gp', 'op'])
-        R.count('op=' + op); R.count('function-valued coefficients'); R.case(('fun', it, op, str(f1), str(f2), str(tv)), True)
+        R.count('op=' + op); R.count('function-valued coefficients'); R.case(('fun', it, op, str(f1), str(f2), str(tv), str(uv)), True)
         def num(mv_):
-            return MultiVector.fromkeysvalues(alg, mv_.keys(), [complex(sympy.N(sympy.sympify(v).subs(t, tv))) for v in mv_.values()])
+            return MultiVector.fromkeysvalues(alg, mv_.keys(), [complex(sympy.N(sympy.sympify(v).subs({t: tv, u_: uv}))) for v in mv_.values()])
         try:
             args = [a, b] if op in ('add', 'sub', 'gp', 'op') else [a]
             sym = getattr(alg, op)(*args)
             want = getattr(alg, op)(*[num(m) for m in args])
-            got = {int(k): complex(sympy.N(sympy.sympify(v).subs(t, tv))) for k, v in zip(sym.keys(), sym.values())}
+            got = {int(k): complex(sympy.N(sympy.sympify(v).subs({t: tv, u_: uv}))) for k, v in zip(sym.keys(), sym.values())}
             exp = {int(k): complex(v) for k, v in zip(want.keys(), want.values())}
         except Exception as e:  # noqa
             viol('symbolic-raises', f'{op} on coefficients {f1}, {f2} raised {type(e).__name__}: {e}'[:300], op=op)
@@ -249,7 +254,7 @@ def run(R, tier):
         for k in set(got) | set(exp):
             g, w = got.get(k, 0), exp.get(k, 0)
             if abs(g - w) > 1e-9 * max(1.0, abs(w)):
-                viol('subst-subs', f'{op} with coefficients {f1} and {f2} in Algebra(sig={list(alg.signature)}): blade {k} evaluates to {g} at t = {tv} after operating symbolically, '
+                viol('subst-subs', f'{op} with coefficients {f1} and {f2} in Algebra(sig={list(alg.signature)}): blade {k} evaluates to {g} at t = {tv}, u = {uv} after operating symbolically, '
                                    f'operating on the numbers gives {w} (the simplification rewrote a coefficient to a different function)', op=op, f=[str(f1), str(f2)], t=str(tv))
                 break
     # argument binding on hand-built expressions
